@@ -157,7 +157,7 @@ theorem specHandler_no_marker : ∀ (h : Handler) (r : Req) (t : Trace), (specHa
       | err t' st r' =>
         cases hasErrs with
         | false => simp [Res.NoMarker]
-        | true => simpa using specRoutes_no_marker errs (withError st r') t'
+        | true => simpa using specRoutes_no_marker errs (catchAt r st r') t'
 theorem specRoutes_no_marker : ∀ (rs : List Route) (r : Req) (t : Trace), (specRoutes rs r t).NoMarker
   | [], r, t => by simp [specRoutes, Res.NoMarker]
   | rt :: rs, r, t => by
@@ -379,7 +379,7 @@ theorem specHandler_keeps : ∀ (h : Handler) (r : Req) (t : Trace), (specHandle
       | err t' st r' =>
         cases hasErrs with
         | false => exact h1
-        | true => exact (specRoutes_keeps errs (withError st r') t').mono h1
+        | true => exact (specRoutes_keeps errs (catchAt r st r') t').mono h1
 theorem specRoutes_keeps : ∀ (rs : List Route) (r : Req) (t : Trace), (specRoutes rs r t).KeepsGroups r.groups
   | [], r, t => by simp [specRoutes, Res.KeepsGroups]
   | rt :: rs, r, t => by
@@ -414,6 +414,101 @@ theorem specRoute_keeps : ∀ (rt : Route) (r : Req) (t : Trace), (specRoute rt 
           | stop o => rw [hh] at h1; exact h1
 end
 
+/-! ### request objects are only ever added: a frame's own object still exists when it catches -/
+
+/-- the state a run hands on (or fails with) has at least `n` older request objects -/
+def Res.OldsGE (x : Res) (n : Nat) : Prop :=
+  match x with
+  | .cont r' _ => n ≤ r'.olds.length
+  | .stop (.err _ _ r') => n ≤ r'.olds.length
+  | .stop (.done _ _) => True
+  | .stop (.reached r' _) => n ≤ r'.olds.length
+
+theorem Res.OldsGE.mono {x : Res} {n m : Nat} (h : x.OldsGE m) (hs : n ≤ m) : x.OldsGE n := by
+  cases x with
+  | cont r t => exact Nat.le_trans hs h
+  | stop o =>
+    cases o with
+    | done t s => trivial
+    | reached r t => exact Nat.le_trans hs h
+    | err t st r => exact Nat.le_trans hs h
+
+theorem catchAt_olds (frame : Req) (st : Nat) (r : Req) : r.olds.length ≤ (catchAt frame st r).olds.length := by
+  simp [catchAt, withError, newObject]
+
+theorem markGroup_olds (g : Nat) (r : Req) : (markGroup g r).olds = r.olds := by
+  unfold markGroup; split <;> rfl
+
+mutual
+theorem specHandlers_olds : ∀ (hs : List Handler) (r : Req) (t : Trace), (specHandlers hs r t).OldsGE r.olds.length
+  | [], r, t => by simp [specHandlers, Res.OldsGE]
+  | h :: hs, r, t => by
+    rw [specHandlers]
+    have h1 := specHandler_olds h r t
+    cases hh : specHandler h r t with
+    | cont r' t' =>
+      rw [hh] at h1
+      exact (specHandlers_olds hs r' t').mono h1
+    | stop o => rw [hh] at h1; exact h1
+theorem specHandler_olds : ∀ (h : Handler) (r : Req) (t : Trace), (specHandler h r t).OldsGE r.olds.length
+  | .pass id, r, t => by simp [specHandler, Res.OldsGE]
+  | .respond id st, r, t => by simp [specHandler, Res.OldsGE]
+  | .rewrite id p, r, t => by simp [specHandler, Res.OldsGE]
+  | .fail id st, r, t => by simp [specHandler, Res.OldsGE]
+  | .raise src, r, t => by simp [specHandler, Res.OldsGE]
+  | .invoke n, r, t => by simp [specHandler, Res.OldsGE]
+  | .answer src, r, t => by
+    cases src <;> simp only [specHandler] <;> (try split) <;> simp [Res.OldsGE]
+  | .sub rs hasErrs errs, r, t => by
+    rw [specHandler]
+    have h1 := specRoutes_olds rs r t
+    cases hs : specRoutes rs r t with
+    | cont r' t' => rw [hs] at h1; exact h1
+    | stop o =>
+      rw [hs] at h1
+      cases o with
+      | done t' s => trivial
+      | reached r' t' => exact h1
+      | err t' st r' =>
+        cases hasErrs with
+        | false => exact h1
+        | true =>
+          exact (specRoutes_olds errs (catchAt r st r') t').mono (Nat.le_trans h1 (catchAt_olds r st r'))
+theorem specRoutes_olds : ∀ (rs : List Route) (r : Req) (t : Trace), (specRoutes rs r t).OldsGE r.olds.length
+  | [], r, t => by simp [specRoutes, Res.OldsGE]
+  | rt :: rs, r, t => by
+    rw [specRoutes]
+    have h1 := specRoute_olds rt r t
+    cases hh : specRoute rt r t with
+    | cont r' t' =>
+      rw [hh] at h1
+      exact (specRoutes_olds rs r' t').mono h1
+    | stop o => rw [hh] at h1; exact h1
+theorem specRoute_olds : ∀ (rt : Route) (r : Req) (t : Trace), (specRoute rt r t).OldsGE r.olds.length
+  | .mk g sets hs term, r, t => by
+    rw [specRoute]
+    cases anyMatch sets r with
+    | err st => simp [Res.OldsGE]
+    | ok b =>
+      cases b with
+      | false => simp [Res.OldsGE]
+      | true =>
+        simp only
+        split
+        · simp [Res.OldsGE]
+        · have h1 := specHandlers_olds hs (markGroup g r) t
+          rw [markGroup_olds] at h1
+          cases hh : specHandlers hs (markGroup g r) t with
+          | cont r' t' =>
+            rw [hh] at h1
+            cases term with
+            | true =>
+              obtain ⟨s, hs⟩ := termK_done r r' t'
+              simp [hs, Res.OldsGE]
+            | false => simpa using h1
+          | stop o => rw [hh] at h1; exact h1
+end
+
 /-! ### the `{http.error.status_code}` placeholder follows the error in the request context -/
 
 /-- the placeholder agrees with the context error whenever that is a `HandlerError` -/
@@ -440,6 +535,11 @@ theorem withError_ok (st : Nat) (r : Req) : (withError st r).PlaceholderOk := by
   simp only [withError] at h ⊢
   cases h
   simp [hne]
+
+theorem catchAt_ok (frame : Req) (st : Nat) (r : Req) : (catchAt frame st r).PlaceholderOk :=
+  withError_ok st _
+theorem serverCatch_ok (req : Req) (st : Nat) (r : Req) : (serverCatch req st r).PlaceholderOk :=
+  withError_ok st _
 
 theorem ev_ok (id : Nat) (r : Req) (h : r.PlaceholderOk) : (ev id r).PlaceholderOk := h
 
@@ -498,7 +598,7 @@ theorem runHandler_pok : ∀ (h : Handler) (k : K), KPlaceholderOk k → KPlaceh
       rw [hrr] at h1
       cases hasErrs with
       | false => exact pok_err _ _ h1.1
-      | true => exact runRoutes_pok errs k hk _ t' (withError_ok st r') h1.1
+      | true => exact runRoutes_pok errs k hk _ t' (catchAt_ok r st r') h1.1
 theorem runRoutes_pok : ∀ (rs : List Route) (k : K), KPlaceholderOk k → KPlaceholderOk (runRoutes rs k)
   | [], k, hk => by simpa [runRoutes] using hk
   | rt :: rs, k, hk => by
